@@ -93,7 +93,7 @@ struct QuantFamily {
       else { T item = Kit::make(v); LibScope ls; sk.update(std::move(item)); }       // rvalue: moved in
     }
   }
-  static bool merge_ref(Env&, Obj& d, const Obj& s) {
+  template <typename SrcT> static bool merge_ref(Env&, Obj& d, SrcT& s) {
     if (!Q::compatible(d, s)) return false;
     LibScope ls; d.merge(s); return true;
   }
